@@ -43,7 +43,18 @@ def ev(t, env):
         return {'AddWithOverflow': a + b, 'SubWithOverflow': a - b, 'MulWithOverflow': a * b}[op]
     if k == 'bin':
         a, b = ev(t[2], env), ev(t[3], env)
-        return {'Add': a + b, 'Sub': a - b, 'Mul': a * b, 'Rem': a % b, 'Div': a // b}[t[1]]
+        ops = {'Add': lambda: a + b, 'Sub': lambda: a - b, 'Mul': lambda: a * b, 'Rem': lambda: a % b, 'Div': lambda: a // b,
+               'BitAnd': lambda: a & b, 'BitOr': lambda: a | b, 'BitXor': lambda: a ^ b, 'Shl': lambda: a << b, 'Shr': lambda: a >> b}
+        if t[1] in ops:
+            return ops[t[1]]()
+    if k in ('ref', 'deref'):
+        return ev(t[1], env)
+    if k == 'index':
+        arr = t[1]
+        while arr[0] in ('ref', 'deref'):
+            arr = arr[1]
+        if arr[0] == 'agg' and arr[1] == 'array':
+            return ev(arr[2][ev(t[2], env)], env)
     raise ValueError('not an integer expression: ' + sk(t))
 
 
